@@ -174,3 +174,16 @@ Goal forall (uc : unicode) (cfg : ts_config),
     c15_contained C15ts LCode (mark (c15_file_pieces C15ts parts)) = forallb safe_ts (c15_item_docs it).
 Proof. exact Props.C15.C15_ts_item. Qed.
 Print Assumptions Props.C15.C15_ts_item.
+Goal forall (cfg : kt_config),
+  c15_plain C15kt (kt_prefix cfg) = true ->
+  c15_mappings_plain C15kt (kt_type_mappings cfg) = true ->
+  forall it text,
+  c15_item_strict C15kt Kotlin it = true ->
+  kt_write_item cfg it = Ok text ->
+  exists parts,
+    text = text_of (c15_file_pieces C15kt parts) /\
+    docs_of (c15_file_pieces C15kt parts) = c15_item_docs_helpers_first it /\
+    c15_contained C15kt LCode (mark (c15_file_pieces C15kt parts)) =
+    forallb safe_kt (c15_item_docs_helpers_first it).
+Proof. exact Props.C15.C15_kt_item. Qed.
+Print Assumptions Props.C15.C15_kt_item.
